@@ -22,7 +22,7 @@ EXPLANATION = (
 ASSUMPTIONS = ["completion CPOs are noexcept (receiver contract)", "pika::detail::try_catch_exception_ptr(f, g) runs f and, if f throws, g with the exception",
                "pika::detail::visit calls exactly one operator() of the visitor"]
 THOROUGH_CONFIGS = [["-UNDEBUG", "-DPIKA_DEBUG"]]
-FLOORS = {"C03.R1": 45, "C03.R2": 5, "C03.R3": 6, "C03.R4": 18, "C03.R5": 6, "C03.R6": 6, "C03.R7": 9}
+FLOORS = {"C03.R1": 45, "C03.R2": 5, "C03.R3": 6, "C03.R4": 18, "C03.R5": 6, "C03.R6": 6, "C03.R7": 9, "C03.R8": 1}
 
 MEMBERS = ("set_value", "set_error", "set_stopped")
 CHANNEL_OK = {"set_value": {"value", "error", "connect", "protocol"}, "set_error": {"error", "protocol", "connect"}, "set_stopped": {"stopped", "protocol"}}
@@ -332,6 +332,37 @@ def run(rep, tier):
                 rep.ok("C03.R4", fn, "the predecessor is started only by the caller that wins start_called.exchange(true)")
             else:
                 rep.bad("C03.R4", fn, fn.loc, "start-once", "the shared predecessor operation can be started more than once")
+
+    # ---- R8: a stopped signal that has arrived is forwarded whatever the predecessor's static traits say
+    rep.rule("C03.R8", "K6: pika's adaptors all declare sends_done = false yet forward set_stopped, so the trait says nothing about whether a stopped signal can arrive. "
+             "Code that has *received* stopped (the stored stopped_type alternative of split_tuple, the stopped branch of when_all_vector::finish) completes its receiver "
+             "with set_stopped unconditionally - it does not make the hand-off depend on sender_traits<Predecessor>::sends_done with an 'unreachable' arm")
+    n8 = 0
+    for fn in F.fns:
+        if fn.parent != -1 or not (fn.qname.startswith("pika::split_tuple_detail::") or fn.qname.startswith("pika::when_all_vector_detail::") or
+                                   fn.qname.startswith("pika::split_detail::") or fn.qname.startswith("pika::when_all_impl::")):
+            continue
+        has_stop = any(e.get("k") == "call" and callee_of(e) == NS + "set_stopped" for _, _, e in fn.all_events())
+        for bid, blk in fn.blocks.items():
+            if blk.cond is None:
+                continue
+            txt = T(blk.cond)
+            if not re.search(r"\bsends_(done|stopped)\b", txt):
+                continue
+            n8 += 1
+            arms = {}
+            for lab, t, _ in blk.succ:
+                arms[lab] = any(e.get("k") == "call" and callee_of(e) == NS + "set_stopped" for e in fn.blocks[t].events)
+            rep.bad("C03.R8", fn, blk.events[-1].get("loc", fn.loc) if blk.events else fn.loc, "stopped-depends-on-trait", "%s forwards a stopped signal it has already received only if "
+                    "%s is true and treats the other case as unreachable: every pika adaptor (then, let_value, schedule_from, bulk, any_sender, ...) declares sends_done = false while "
+                    "forwarding set_stopped, so a stopped signal passing through one of them ends in PIKA_UNREACHABLE (terminate / undefined behaviour) instead of "
+                    "arriving as stopped" % (fn.qname, txt))
+        if has_stop and (fn.qname.startswith("pika::split_tuple_detail::") or fn.qname.startswith("pika::when_all_vector_detail::")) and \
+                not any(blk.cond is not None and re.search(r"\bsends_(done|stopped)\b", T(blk.cond)) for blk in fn.blocks.values()):
+            n8 += 1
+            rep.ok("C03.R8", fn, "set_stopped is not conditional on a static sends_done trait")
+    if n8 < 1:
+        raise AnalysisBroken("C03.R8: no stopped hand-off examined in split_tuple / when_all_vector")
 
     # ---- R5
     sd = [f for f in members if f.qname.startswith("pika::start_detached_detail::")]
